@@ -13,7 +13,7 @@ ASSUME = [
     'the law their arguments describe; scripted generators return loc + scale*z resp. exp(mean + sigma*z)',
     'integer inputs make every coefficient an integer multiple of 1/2; a cell whose numbers are not integral or whose '
     'form leaves the algebra (affine / log-affine in normal atoms, one truncated-normal atom, a constant) is counted as '
-    'undecided, never as a violation',
+    'undecided, never as a violation (any undecided cell makes the check end with exit 2: it could not decide)',
     'claimed laws are the documented densities of the models (Gaussian with sd sigma, sigma_rel*y, sigma_base+sigma_rel*y; '
     'log-normal with mean y; population Gaussian / log-normal / Gaussian truncated at 0 / point mass; non-centred models '
     'after compute_individual_parameters; covariate models conditional on the covariates)',
@@ -65,6 +65,9 @@ def run(tier, seed):
     n = len(out['names']) - 2
     v.counters['cells'] = out['ncells']
     v.counters['undecided_cells'] = undecided
+    if undecided:
+        # a sampler whose cells leave the algebra cannot be judged: that is a failure of the machinery to decide, not a pass
+        raise MachineryError('%d sampler cells could not be identified (form outside the sample algebra)' % undecided)
     cov = dict(states=out['run']['states'], transitions=out['run']['transitions'], traces_validated_against_impl=n,
                evaluations=out['ncells'], distinct_nontrivial=n, exhaustive=False,
                rule='4 error models x parameter points x output vectors x sample sizes, 6 leaf population kinds x n_dim x '
